@@ -99,6 +99,14 @@ class FieldArrayModel(FieldCompositeModel):
         self.sum_expr = None
         self.sum_expr_btor = None
         
+        if self.is_rand_sz and self.is_scalar:
+            # The list was pre-extended to the largest size its bounds 
+            # admit. Drop the elements beyond the solved size, so the 
+            # model holds exactly the list the user sees
+            sz = int(self.size.get_val())
+            if sz < len(self.field_l):
+                del self.field_l[sz:]
+        
     def add_field(self) -> FieldScalarModel:
         fid = len(self.field_l)
         if self.is_enum:
